@@ -301,7 +301,7 @@ func C17_Jobs() []string {
 	for _, op := range c17NotOps {
 		out = append(out, "not/"+op)
 	}
-	out = append(out, "not-scope", "not-empty-arg", "lastcall/int", "lastcall/str", "lastcall/slice", "lastcall/bool", "lastcall/float", "lastcall/time", "lastcall/options", "options/local", "options/shared-test", "options/not-moved", "not-with-options", "coercer/local", "coercer/slice", "coercer/nested", "coercer/constructors", "shared/fields", "shared/slice")
+	out = append(out, "not-scope", "not-empty-arg", "not-branches", "lastcall/int", "lastcall/str", "lastcall/slice", "lastcall/bool", "lastcall/float", "lastcall/time", "lastcall/options", "options/local", "options/shared-test", "options/not-moved", "not-with-options", "coercer/local", "coercer/slice", "coercer/nested", "coercer/constructors", "shared/fields", "shared/slice")
 	return out
 }
 func C17_Covers() []string { return []string{"checked"} }
@@ -337,6 +337,34 @@ func c17Apply(s z.NotStringSchema[string], op string, p string, n int) (*z.Strin
 func C17_Run(job string) {
 	a, b, _, _ := split3(job)
 	switch a {
+	case "not-branches":
+		// two negated tests started from one schema value that already holds n tests (0..9: every
+		// spare-capacity situation of the test list): each resulting schema negates its own test,
+		// with its own options
+		n := v.Choice("tests-before", 10)
+		base := z.String()
+		for i := 0; i < n; i++ {
+			base = base.Max(100 + i)
+		}
+		x, y := visible("x", 1), visible("y", 1)
+		v.Assume(len(x) == 1 && len(y) == 1 && x != y)
+		sa := base.Not().Contains(x, z.Message("first"))
+		sb := base.Not().HasPrefix(y, z.Message("second"))
+		var d string
+		ea := sa.Parse("a"+x+"b", &d)
+		eb := sb.Parse(y+"b", &d)
+		has := func(l z.ZogIssueList, code, msg string) bool {
+			k := 0
+			for _, i := range l {
+				if i.Code == code && i.Message == msg {
+					k++
+				}
+			}
+			return k == 1
+		}
+		v.Cover("checked")
+		v.Assert(has(ea, "not_contained", "first"), "C17:not-scope")
+		v.Assert(has(eb, "not_prefix", "second"), "C17:not-scope")
 	case "not":
 		var subj, param string
 		switch b {
